@@ -191,7 +191,7 @@ theorem parseFsElem_ren (K : Consts) (ts : TypeSystem) (tsIdx : Nat) (hp : Heap)
   have hgroup : groupKids (renKeys e.kids) [] = renKeys (groupKids e.kids []) := hg1
   rw [parseFsElem_eq, parseFsElem_eq]
   simp only [renElem]
-  cases getType ts e.ty with
+  cases getTypeExact ts e.ty with
   | error err => rfl
   | ok t =>
     simp only [bind, Except.bind]
